@@ -1,6 +1,8 @@
 #!/bin/bash
-# all_mutants.sh [tier] : every seeded change against the quick checks its meta.json names; prints the ones NOT caught
+# all_mutants.sh [tier] [seed] : every seeded change against the quick checks its meta.json names; prints the ones NOT caught
 T=${1:-quick}
+SEED=${2:-}
+SA=""; [ -n "$SEED" ] && SA="--seed $SEED"
 cd /verif
 for d in seeded/*/; do
   m=$(basename $d)
@@ -8,7 +10,7 @@ for d in seeded/*/; do
   git -C /repo apply /verif/$d/patch.diff || { echo "$m: PATCH DOES NOT APPLY"; continue; }
   for c in $checks; do
     case "$c" in C[0-9][0-9]) ;; *) continue ;; esac
-    out=$(./check $c --no-build --tier $T 2>&1)
+    out=$(./check $c --no-build --tier $T $SA 2>&1)
     n=$(echo "$out" | grep -c "^VIOLATION")
     if ! echo "$out" | grep -q "^$c $T:"; then echo "$m: CHECK $c DID NOT COMPLETE (machinery broken or changed while running)";
     elif [ "$n" = "0" ]; then echo "$m: NOT CAUGHT by $c"; else echo "$m: $c $n"; fi
